@@ -290,8 +290,18 @@ def quotedBody : Text → Option Text
       | d :: s' => if d = '\'' then (quotedBody s').map fun b => '\'' :: '\'' :: b else none
     else (quotedBody s).map fun b => c :: b
 
-/-- `resolve_sheet`: `re.match(SHEET_TITLE, sheet_str + '!')` on a text without `!`; group `quoted`
-    (apostrophes still doubled) or `notquoted` (no `'`, `^`, blank), else the text itself. -/
+/-- `quoted.replace("''", "'")`: left to right, non-overlapping. -/
+def unApos : Text → Text
+  | [] => []
+  | c :: s =>
+    if c = '\'' then
+      match s with
+      | [] => [c]
+      | d :: s' => if d = '\'' then '\'' :: unApos s' else c :: d :: unApos s'
+    else c :: unApos s
+
+/-- `resolve_sheet`: `re.match(SHEET_TITLE, sheet_str + '!')` on a text without `!`; group `quoted` with
+    its doubled apostrophes un-doubled, or `notquoted` (no `'`, `^`, blank), else the text itself. -/
 def resolveSheet (sheetStr : Text) : Text :=
   let s := strip sheetStr
   match s with
@@ -299,7 +309,7 @@ def resolveSheet (sheetStr : Text) : Text :=
   | c :: rest =>
     if c = '\'' then
       match quotedBody rest with
-      | some body => if body = [] then "None".toList else body     -- `'' or None`
+      | some body => if body = [] then "None".toList else unApos body     -- `if quoted: … else notquoted (None)`
       | none => s
     else s
 
